@@ -134,7 +134,9 @@ pub struct World {
 }
 
 pub fn leaf_cores() -> Vec<String> {
-    ["addone", "noop", "axisswap order=2,1", "add2", "helmert x=3", "helmert y=-2 z=5", "axisswap order=1,-2", "latlon"]
+    // (the last three: what a step leaves in the third element, and shifts no binary fraction holds exactly, matter to
+    // containers that store two elements, or 32-bit numbers)
+    ["addone", "noop", "axisswap order=2,1", "add2", "helmert x=3", "helmert y=-2 z=5", "axisswap order=1,-2", "latlon", "axisswap order=3,1,2", "helmert x=0.1 y=0.7", "helmert z=7.3"]
         .iter()
         .map(|s| s.to_string())
         .collect()
@@ -303,8 +305,49 @@ pub fn generate_c03(g: &mut Gen, thorough: bool) {
             g.push(f.join("\t"), "oracle-macro-arguments-and-modifiers", true);
         }
     }
-    // macros whose body is a pipeline that starts with a stack operator: as steps of an enclosing pipeline they
-    // are pipelines, not stack operators, in both directions
+    stack_led_macros(g, thorough);
+    // a step next to its own inverse is still two steps: both run (roundoff and all), both are counted
+    let w = make_world(&mut g.rng, 2);
+    let data = crate::wire::data_of(&[[0.1, 0.7, 1e-3, 2000.3], [1.0 / 3.0, -2.0 / 7.0, 1e15 + 0.5, 1e-9]]);
+    for core in w.cores.clone() {
+        for (first_inv, lead, trail) in [(false, false, false), (true, false, false), (false, true, false), (true, false, true), (false, true, true)] {
+            let mut steps = vec![];
+            if lead {
+                steps.push(StepSpec { core: "addone".to_string(), inv: false, omit_fwd: false, omit_inv: false });
+            }
+            steps.push(StepSpec { core: core.clone(), inv: first_inv, omit_fwd: false, omit_inv: false });
+            steps.push(StepSpec { core: core.clone(), inv: !first_inv, omit_fwd: false, omit_inv: false });
+            if trail {
+                steps.push(StepSpec { core: "helmert x=0.3".to_string(), inv: false, omit_fwd: false, omit_inv: false });
+            }
+            let def = render_pipeline(&mut g.rng, &steps, false);
+            for dir in ["F", "I"] {
+                let mut f = vec!["OP".to_string()];
+                f.extend(ctx_fields("default", &w));
+                f.push(crate::wire::escape(&def));
+                f.push("both".to_string());
+                f.push(dir.to_string());
+                f.push(data.clone());
+                g.push(f.join("\t"), "step-next-to-its-inverse", true);
+                let mut f = vec!["S_C03".to_string()];
+                f.extend(ctx_fields("default", &w));
+                f.push(crate::wire::escape(&def));
+                f.push(steps.len().to_string());
+                for s in &steps {
+                    f.push(s.flags());
+                    f.push(crate::wire::escape(&s.core));
+                }
+                f.push(dir.to_string());
+                f.push(data.clone());
+                g.push(f.join("\t"), "oracle-step-next-to-its-inverse", true);
+            }
+        }
+    }
+}
+
+/// macros whose body is a pipeline that starts with a stack operator: as steps of an enclosing pipeline they
+/// are pipelines, not stack operators, in both directions
+pub fn stack_led_macros(g: &mut Gen, thorough: bool) {
     {
         let mut w = make_world(&mut g.rng, 1);
         w.resources.push(("m:swap".to_string(), "push v_1 v_2 | pop v_1 | pop v_2".to_string()));
@@ -347,43 +390,6 @@ pub fn generate_c03(g: &mut Gen, thorough: bool) {
             f.push(dir.to_string());
             f.push(data);
             g.push(f.join("\t"), "oracle-macros-that-start-with-a-stack-operator", true);
-        }
-    }
-    // a step next to its own inverse is still two steps: both run (roundoff and all), both are counted
-    let w = make_world(&mut g.rng, 2);
-    let data = crate::wire::data_of(&[[0.1, 0.7, 1e-3, 2000.3], [1.0 / 3.0, -2.0 / 7.0, 1e15 + 0.5, 1e-9]]);
-    for core in w.cores.clone() {
-        for (first_inv, lead, trail) in [(false, false, false), (true, false, false), (false, true, false), (true, false, true), (false, true, true)] {
-            let mut steps = vec![];
-            if lead {
-                steps.push(StepSpec { core: "addone".to_string(), inv: false, omit_fwd: false, omit_inv: false });
-            }
-            steps.push(StepSpec { core: core.clone(), inv: first_inv, omit_fwd: false, omit_inv: false });
-            steps.push(StepSpec { core: core.clone(), inv: !first_inv, omit_fwd: false, omit_inv: false });
-            if trail {
-                steps.push(StepSpec { core: "helmert x=0.3".to_string(), inv: false, omit_fwd: false, omit_inv: false });
-            }
-            let def = render_pipeline(&mut g.rng, &steps, false);
-            for dir in ["F", "I"] {
-                let mut f = vec!["OP".to_string()];
-                f.extend(ctx_fields("default", &w));
-                f.push(crate::wire::escape(&def));
-                f.push("both".to_string());
-                f.push(dir.to_string());
-                f.push(data.clone());
-                g.push(f.join("\t"), "step-next-to-its-inverse", true);
-                let mut f = vec!["S_C03".to_string()];
-                f.extend(ctx_fields("default", &w));
-                f.push(crate::wire::escape(&def));
-                f.push(steps.len().to_string());
-                for s in &steps {
-                    f.push(s.flags());
-                    f.push(crate::wire::escape(&s.core));
-                }
-                f.push(dir.to_string());
-                f.push(data.clone());
-                g.push(f.join("\t"), "oracle-step-next-to-its-inverse", true);
-            }
         }
     }
 }
